@@ -696,6 +696,14 @@ def run_real(case: str) -> str:
                     await at_site(i + 1)
 
         async def main():
+            if d.get("pc") == "1":
+                # the calling task was cancelled earlier and handled it: `cancelling()` stays above zero from here on,
+                # which is nobody's business – the wrapped function must be called all the same
+                asyncio.current_task().cancel()
+                try:
+                    await asyncio.sleep(0)
+                except asyncio.CancelledError:
+                    pass
             if d["root"] == "1":
                 async with ctx.scope("root", completion=root_done):
                     await at_site(0)
@@ -768,7 +776,7 @@ def direct_reference(d: dict) -> tuple[str, str]:
 def model_input(case: str, real_out: str) -> str:
     try:
         d = parse(case)
-        case = case.replace("form=obj", "form=fn")
+        case = case.replace("form=obj", "form=fn").replace(" pc=1", "")
         if d["deco"] in DECOS_META:
             return case    # a callable object is a callable: the model's `Fn` is arbitrary behaviour
         out, bind = direct_reference(d)
@@ -988,6 +996,8 @@ def gen_case(rng, deco=None) -> str:
         kw.pop("self", None)
     if form == "meth" and rng.random() < 0.5:
         extra += " recv=" + ",".join(rng.choice("aacbse") for _ in range(rng.randint(2, 4)))
+    if "cancel=1" not in extra and rng.random() < 0.08:
+        extra += " pc=1"
     return (f"deco={deco} form={form} root={root} site={'.'.join(site) or '-'} sig={sig} pos={','.join(pos) or '-'} "
             f"kw={','.join(f'{k}:{v}' for k, v in kw.items()) or '-'} out={out} leak={leak} rec={rec} block={block} "
             f"doc={rng.choice('1110')}{extra}{nest}")
@@ -1011,6 +1021,9 @@ def corpus():
         f"deco=asyn form=fn {base} block=1",                   # loop keeps serving
         f"deco=asyn form=fn {base} nest=1",                    # executor -> loop -> executor
         f"deco=asyn_ex form=meth {base} nest=1",
+        f"deco=asyn form=fn {base} pc=1",                      # called by a task that handled an earlier cancellation
+        f"deco=asyn form=meth root=0 site=- sig=0 pos=i1 kw=k:i5 out=r:i2 pc=1",
+        f"deco=wasync_a form=fn {base} pc=1", f"deco=traced_a form=meth {base} pc=1", f"deco=traced_s form=fn {base} pc=1",
         f"deco=asyn_loop form=fn root=0 site=- sig=3 pos=i1 kw=q:t out=e:B",
         f"deco=wasync_s form=fn {base} leak=9",
         f"deco=wasync_a form=meth {base} out=e:C",
